@@ -468,6 +468,14 @@ class Analyzer:
             if cond.get("k") == "let":
                 t_in = self._shadow(t_in, cond["pat"])
             rt = self.walk(n["then"], t_in, env, probs)
+            if n.get("else") is None and cond.get("k") == "let" and "Some" in sir.pat_str(cond["pat"]) and cond["e"].get("k") == "mcall" and cond["e"]["m"] in ("next", "first", "split_first"):
+                # `if let Some(x) = it.next() { write x }` without an else: whether the sequence can be empty here is not
+                # something this analysis knows (it usually follows a non-emptiness test); a pending keyword is not held
+                # against the skipping path
+                def relax(s_):
+                    b = {k_: ((v_[0], v_[1], v_[2], "x") if len(v_) == 4 and v_[3] == "k" else v_) for k_, v_ in s_.bufs.items()}
+                    return s_.copy(bufs=b)
+                e_in = [relax(s_) for s_ in e_in]
             re_ = self.walk(n["else"], e_in, env, probs) if n.get("else") is not None else {"normal": e_in, "return": [], "break": [], "continue": []}
             for st in R:
                 R[st] += rt[st] + re_[st]
